@@ -3,3 +3,38 @@ from impl_arr import run_history
 
 def history(case, d):
     return run_history(case, d, want_regen=False)
+
+
+def bigdarr(case, d):
+    """append of ANOTHER darr Array that is larger than the library's internal chunk size (80 MiB), with
+    the file system refusing growth after `k` more bytes: all or nothing.  Rows are 8 MiB wide (NumPy
+    converts a darr Array row by row).  Oracle only."""
+    import os
+    import resource
+    import signal
+    import numpy as np
+    import darr
+    rows, k = case['rows'], case['k']
+    rowlen = 8 * 1024 ** 2
+    tp = os.path.join(d, 't.darr')
+    tgt = darr.asarray(tp, np.full((1, rowlen), 3, dtype='int8'), accessmode='r+')
+    src = darr.create_array(os.path.join(d, 's.darr'), shape=(rows, rowlen), dtype='int8', fill=1)
+    dp = os.path.join(tp, 'arrayvalues.bin')
+    out = dict(before=[len(tgt), os.path.getsize(dp)])
+    signal.signal(signal.SIGXFSZ, signal.SIG_IGN)
+    soft, hard = resource.getrlimit(resource.RLIMIT_FSIZE)
+    resource.setrlimit(resource.RLIMIT_FSIZE, (os.path.getsize(dp) + k, hard))
+    try:
+        tgt.append(src)
+        out['res'] = 'ok'
+    except Exception as e:
+        out['res'] = type(e).__name__
+    finally:
+        resource.setrlimit(resource.RLIMIT_FSIZE, (hard, hard))
+    out['after'] = [len(tgt), os.path.getsize(dp)]
+    try:
+        f = darr.Array(tp)
+        out['fresh'] = [len(f), int(f[0, 0]), int(f[-1, -1])]
+    except Exception as e:
+        out['fresh'] = f'{type(e).__name__}: {e}'[:200]
+    return out
